@@ -62,6 +62,8 @@ func (ml *MemLogger) GetLogs() []*observer.LoggedEntry {
 	var index = BufferSize - 1
 	mc := ml.core
 	logs := make([]*observer.LoggedEntry, BufferSize)
+	mc.mu.RLock()
+	defer mc.mu.RUnlock()
 	mc.r.Do(func(val interface{}) {
 		if val != nil {
 			logs[index] = val.(*observer.LoggedEntry)
